@@ -26,7 +26,15 @@ type hookDB struct {
 
 type hookBatch struct {
 	dbm.Batch
-	e *env
+	e      *env
+	pwHash bool // the batch stages a PasswordHash record: it is a password-change (or save-seed) batch
+}
+
+func (b *hookBatch) Set(k, v []byte) {
+	if string(k) == "PasswordHash" {
+		b.pwHash = true
+	}
+	b.Batch.Set(k, v)
 }
 
 func (d *hookDB) Get(k []byte) ([]byte, error) {
@@ -47,7 +55,8 @@ var errInjectedWrite = fmt.Errorf("verif: injected batch write failure")
 
 func (b *hookBatch) Write() error {
 	b.e.at("write")
-	if atomic.CompareAndSwapInt32(&b.e.failNextWrite, 1, 0) {
+	// only the batch of a password change is made to fail (background rescans write batches of their own)
+	if b.pwHash && atomic.CompareAndSwapInt32(&b.e.failNextWrite, 1, 0) {
 		b.Batch.Reset()
 		return errInjectedWrite
 	}
